@@ -113,6 +113,11 @@ PROPS = {
         'line_starts over strings given by their line structure (symbolic line lengths, LF / CRLF / missing final newline), std str::lines / '
         'split_inclusive / split / len modelled on that structure',
         'which byte ranges pulldown-cmark reports for a block (e.g. a last line without newline) and UTF-16 vs byte columns are outside the claim']},
+    'C02': {'specs': DOC_ALL + [RENDER_SPEC], 'notes': COMMON + [WRITER_NOTE,
+        'text fixpoint: on every path of the document harnesses the projected blocks are written by the real writer, read back by the reference reader, built and projected '
+        'again by the real code and written again; the two texts must be equal (heading depths symbolic: a run of # of symbolic length is carried as a mark and compared by the solver); '
+        'a table stands as one non-paragraph leaf (its own text comes from the cmark writer, outside); inline mark-up beyond emphasis / plain links, escaping of '
+        'special characters in words, front matter and refs_extension are outside; the executor verdict agreed with the real format-twice on all 51,743 quick paths (one-off exhaustive validation), sampled on every run']},
     'C01': {'specs': DOC_ALL + [LIB_META_SPEC, EVENTS_SPEC, TITLES_SPEC, RENDER_SPEC], 'notes': COMMON + [WRITER_NOTE, 'claimed at block level: every block/token of the input appears once, in order, in the same container, same kind']},
     'C03': {'specs': DOC_ALL + [POSB_SPEC, EVENTS_SPEC], 'notes': COMMON + ['claimed for blocks -> graph -> tree -> projection: every compiler-emitted panic edge / unwrap / expect / explicit panic reachable within the bounds is a violation']},
     'C07': {'specs': DOC_ALL + [RENDER_SPEC, KANI_C07], 'notes': COMMON + [WRITER_NOTE, 'heading levels are symbolic u8 in 1..6; laws: order kept, emitted outline well nested, well-nested input keeps its levels, blocks stay under the nearest preceding heading']},
